@@ -480,6 +480,19 @@ fn block_schedule(req: &Value) -> Value {
         Ok(p) => p,
         Err(e) => return json!({"input_error": format!("{e:?}")}),
     };
+    let mut program = program;
+    if req["empty_calibration_bodies"].as_bool().unwrap_or(false) {
+        // a calibration with an empty body can only be built through the API: empty every gate calibration of the parsed program
+        let ins: Vec<Instruction> = program
+            .to_instructions()
+            .into_iter()
+            .map(|i| match i {
+                Instruction::CalibrationDefinition(mut c) => { c.instructions.clear(); Instruction::CalibrationDefinition(c) }
+                other => other,
+            })
+            .collect();
+        program = Program::from_instructions(ins);
+    }
     let cfg = ControlFlowGraph::from(&program);
     let mut blocks = vec![];
     for b in cfg.into_blocks() {
@@ -686,6 +699,12 @@ fn placeholders(req: &Value) -> Value {
             "jumpwhen" => Instruction::JumpWhen(JumpWhen { target: target.unwrap(), condition: MemoryReference { name: "ro".to_string(), index: 0 } }),
             "jumpunless" => Instruction::JumpUnless(quil_rs::instruction::JumpUnless { target: target.unwrap(), condition: MemoryReference { name: "ro".to_string(), index: 0 } }),
             "reset" => Instruction::Reset(quil_rs::instruction::Reset { qubit: qubits.first().cloned() }),
+            "rawcapture" => Instruction::RawCapture(quil_rs::instruction::RawCapture {
+                blocking: true,
+                frame: quil_rs::instruction::FrameIdentifier { name: "rx".to_string(), qubits },
+                duration: quil_rs::expression::Expression::Number(num_complex::Complex64::new(1.0, 0.0)),
+                memory_reference: MemoryReference { name: "ro".to_string(), index: 0 },
+            }),
             "measure-to" => Instruction::Measurement(Measurement { name: None, qubit: qubits[0].clone(), target: Some(MemoryReference { name: "ro".to_string(), index: 0 }) }),
             k => return json!({"unknown_kind": k}),
         };
